@@ -207,7 +207,15 @@ class EinsumDistributiveLawMapper(
                 # (int32 instead of float64 for 1.5 * int32_array).
                 and all(x.dtype == expr.dtype
                         for x in (hlo.x1, hlo.x2)  # type: ignore[attr-defined]
-                        if isinstance(x, Array))):
+                        if isinstance(x, Array))
+                # ... and pushed through an operation carried out in a
+                # narrower type than the einsum's would widen its operands
+                # first (int8 x * 3 wraps, A_int64 @ x does not)
+                and (ctx is None
+                     or expr.dtype == np.result_type(
+                         expr.dtype,
+                         *[arg.dtype
+                           for arg in ctx.surrounding_args.values()]))):
             assert isinstance(hlo, BinaryOp)
             # /!\ Warning: Loses metadata.
             rec_x1 = (
